@@ -336,6 +336,18 @@ def check_parse_uri_lookup(cx: Cx, ob: Ob) -> None:
                 trie_q = [c_ for c_, _, _ in queries]
                 after = [g for g in ctx.guards if g.kind == "guard" and any(x in trie_q for x in subterms(g.a))]
                 bad_after = [g for g in after if not any(op(x) == "call" and callee_name(x) == "standardize_identifier" for x in subterms(g.a))]
+                # before the trie is asked: giving up BECAUSE the URI is a key of one of the URI tables throws away
+                # exactly the URIs the trie would match whole (the bare URI prefix, identifier '')
+                me_ = ("param", fn.self_name)
+                for g in ctx.guards:
+                    if g.kind == "guard" and g not in after and op(g.a) == "cmp" and g.a[2] == ("param", "uri") and ((g.a[1] == "in" and g.b is True) or (g.a[1] == "not in" and g.b is False)) and op(g.a[3]) == "attr" and g.a[3][1] == me_ and g.a[3][2] in ("reverse_prefix_map", "trie"):
+                        ob.violate(
+                            fn.qualname,
+                            where(fn, o[2]),
+                            f"parse_uri gives up without asking the trie when `{show(g.a)[:60]}`: a URI that IS a registered URI prefix has that prefix as its longest match (identifier ''), and is now reported as not convertible",
+                            witness="parse_uri('<a registered URI prefix>') was ReferenceTuple(prefix, ''), now (None, None); compress / is_uri / standardize_uri follow",
+                            detail="failure-on-registered-prefix",
+                        )
                 if bad_after:
                     g0 = bad_after[-1]
                     ob.violate(
